@@ -38,6 +38,9 @@ META = {
             "state sees (call limit, error detail) must be what they were, also when the caller had set them; parse_and_optimize must end as its own steps do; "
             "texts of 70 - 300 kB (generated grammars, the shipped grammars with renamed rules, the meta-grammar repeated, a long expression, cut / damaged "
             "copies) are fed after rejected texts; a setting left behind is followed up by a bisection for the text size at which it changes a leg's answer. "
+            "The legs are also run under the two switches themselves: with pest::set_error_detail(true) the forest or the error with everything Error::parse_attempts() carries "
+            "and the message parse_attempts_error renders must agree for checked-in parser, pest_vm and fresh parser; under pest::set_call_limit the checked-in and the fresh parser "
+            "(the same generated code) must have the same budget on every text (smallest limit not refused, answers at and below it), pest_vm is compared far from it. "
             "A disagreement is re-run in a process of its own, alone and then with the texts fed before it, and the replay carries that history.",
     "note": "Trusted: Coq kernel; extraction; the syn reader (strict) and the two python printers of s-expressions as Gallina; VmCompile.v / "
             "Exec.v as models of the VM / ParserState (tied to the code by the differential runs here and by C01/C03). The theorem is about the "
@@ -213,7 +216,7 @@ def rerun(leg, cases, timeout=900):
     (disagreements, LIMIT lines, output without the D lines)."""
     f = os.path.join(BUILD, "c14_seq_%d.txt" % os.getpid())
     with open(f, "w") as fh:
-        fh.write("".join("%s\t%s\n" % (r, h) for r, h in cases))
+        fh.write("".join("\t".join(c) + "\n" for c in cases))   # (rule, hex text[, switch setting])
     gen_pipe = ("| %s " % leg["gen"]) if leg["gen"] else ""
     rc, out = sh("%s diff %s 0 0 seq %s %s| %s -1 %s" % (leg["hbin"], REPO, f, gen_pipe, os.path.join(BUILD, "c14_runner"), tag_of(leg["feat"])), timeout=timeout)
     m, s, other = parse_runner_output(out)
@@ -245,6 +248,40 @@ def read_episodes(path):
 def case_parts(case):
     m = re.match(r"r=(\S+) in=(\S+)", case)
     return (m.group(1), m.group(2)) if m else ("", "")
+
+
+def switch_of(case):
+    m = re.search(r" switch=(\S+)", case)
+    return m.group(1) if m else ""
+
+
+def against_of(case):
+    m = re.search(r"against=(\S+)", case)
+    return m.group(1) if m else "vm"
+
+
+def switch_candidates(m):
+    """The concrete settings of pest's switches to re-run a disagreeing case under: `limit:auto` (the legs' budgets differ, or pest_vm
+    differs far from the budget) -> the limits at which the two legs answer differently."""
+    sw = switch_of(m["case"])
+    if sw != "limit:auto":
+        return [sw]
+    if against_of(m["case"]) == "vm":
+        return ["limit:" + x for x in re.findall(r"vmfar=DIFF limit=(\d+)", m["expected"])][:1]
+    needs = [int(x) for x in re.findall(r"need=(\d+)", m["impl"] + " " + m["expected"])]
+    c = []
+    for n in ([min(needs)] if len(set(needs)) > 1 else []) + needs + [n - 1 for n in needs]:
+        if n >= 1 and n not in c:
+            c.append(n)
+    return ["limit:%d" % n for n in c]
+
+
+def switch_words(sw):
+    if sw == "detail":
+        return "with pest::set_error_detail(true)"
+    if sw.startswith("limit:"):
+        return "under pest::set_call_limit(%s)" % sw[6:]
+    return ""
 
 
 def show_hex(h, n=200):
@@ -294,9 +331,13 @@ def run(tier, seed, replay=None):
             res.violation("harness does not build against the repository with %s" % FEAT_NAME[leg["feat"]], {"theorem_or_correspondence": "C14 (build)", "log": leg["log"][-3000:]}, no_failing_input=True)
             return res.finish()
         pre = [(x.get("rule", "grammar_rules"), x.get("input", "-")) for x in rj.get("pre", [])]
-        sp, lim, shown = rerun(leg, pre + [(rj.get("rule", "grammar_rules"), rj.get("input", "-"))])
+        rsw = rj.get("switch", "")
+        sp, lim, shown = rerun(leg, pre + [(rj.get("rule", "grammar_rules"), rj.get("input", "-")) + ((rsw,) if rsw else ())])
+        if rsw:
+            # under a call limit pest_vm (another program) may answer differently inside the band: only the leg the replay names counts
+            sp = [x for x in sp if switch_of(x["case"]) == rsw and against_of(x["case"]) == against_of(rj.get("case", ""))]
         log("replay: " + shown[-2000:])
-        where = (" (crates built with the %s)" % FEAT_NAME[leg["feat"]] if leg["feat"] else "") + (" after the %d texts of its history were fed in the same process" % len(pre) if pre else "")
+        where = ((" " + switch_words(rsw)) if rsw else "") + (" (crates built with the %s)" % FEAT_NAME[leg["feat"]] if leg["feat"] else "") + (" after the %d texts of its history were fed in the same process" % len(pre) if pre else "")
         if lim and not sp:
             res.violation("replayed text: the freshly generated parser still does not finish within %d calls where the checked-in parser returns%s" % (FRESH_CALL_LIMIT, where),
                           {"case": rj.get("case", ""), "rule": rj.get("rule", "grammar_rules"), "input": rj.get("input", "-"), "pre": rj.get("pre", []), "features": leg["feat"]})
@@ -308,7 +349,7 @@ def run(tier, seed, replay=None):
         if sp:
             res.violation("replayed text is still parsed differently by the checked-in parser and %s%s" % (" / ".join(sorted(set(against_name(x["case"]) for x in sp))), where),
                           {"case": rj.get("case", ""), "rule": rj.get("rule", "grammar_rules"), "input": rj.get("input", "-"), "pre": rj.get("pre", []), "features": leg["feat"],
-                           "impl": sp[0]["impl"][:20000], "other": sp[0]["expected"][:20000]})
+                           "switch": rsw, "impl": sp[0]["impl"][:20000], "other": sp[0]["expected"][:20000]})
         return res.finish()
     for leg in (L0, LX):
         if leg["rc"] != 0:
@@ -372,6 +413,10 @@ def run(tier, seed, replay=None):
         if leg["rc"] == 0:
             epfiles[leg["feat"]] = os.path.join(BUILD, "c14_episodes_%s%d.txt" % (leg["feat"], os.getpid()))
             cmds.append("%s large %s %d %s %d %s| %s -1 %s" % (leg["hbin"], REPO, seed, epfiles[leg["feat"]], pct, leg["pipe"], runner, tag_of(leg["feat"])))
+    # the legs under the settings of pest's two process-wide switches: error detail on, call limits around each leg's budget (both builds)
+    for leg in (L0, LX):
+        if leg["rc"] == 0:
+            cmds.append("%s switches %s %d %d %s| %s -1 %s" % (leg["hbin"], REPO, count, seed, leg["pipe"], runner, tag_of(leg["feat"])))
     mism, stats, which, diffs = run_pipes(cmds)
     per = list(PER_CMD)
     try:
@@ -388,6 +433,11 @@ def run(tier, seed, replay=None):
         if " large " in pc["cmd"]:
             for k, v in pc["stats"].items():
                 stats_large[k] = stats_large.get(k, 0) + v if isinstance(v, int) else v
+    stats_sw = {}
+    for pc in per:
+        if " switches " in pc["cmd"]:
+            for k, v in pc["stats"].items():
+                stats_sw[k] = stats_sw.get(k, 0) + v if isinstance(v, int) else v
     episodes = {f: read_episodes(pth) for f, pth in epfiles.items()}
     for pth in epfiles.values():
         try:
@@ -548,10 +598,18 @@ def run(tier, seed, replay=None):
                     hist.insert(0 if not hist else 1, [case_parts(before[-1]["case"])])
             if not hist and settings_m:
                 hist.append([case_parts(settings_m[0]["case"])])
-            for h in [[]] + hist:
-                sp1, lim1, _ = rerun(leg, h + [(rule, inp)])
-                if sp1:
-                    worst, pre, confirmed = cand, h, True
+            for sw in switch_candidates(cand):
+                for h in [[]] + hist:
+                    sp1, lim1, _ = rerun(leg, h + [(rule, inp) + ((sw,) if sw else ())])
+                    if sw:
+                        sp1 = [x for x in sp1 if switch_of(x["case"]) == sw and against_of(x["case"]) == against_of(cand["case"])]
+                    if sp1:
+                        worst, pre, confirmed = cand, h, True
+                        if sw:
+                            # the concrete setting, and what the two legs answer under it
+                            worst = dict(cand, case=re.sub(r" switch=\S+", " switch=" + sw, cand["case"]), impl=sp1[0]["impl"], expected=sp1[0]["expected"])
+                        break
+                if confirmed:
                     break
             if confirmed:
                 break
@@ -560,15 +618,16 @@ def run(tier, seed, replay=None):
         rule, inp, against = (m.group(1), m.group(2), m.group(3)) if m else ("", "", "")
         feat = feat_of(worst["case"])
         shown = show_hex(inp)
-        ctx = (" [crates built with the %s]" % FEAT_NAME[feat] if feat else "")
+        wsw = switch_of(worst["case"])
+        ctx = ((" " + switch_words(wsw)) if wsw else "") + (" [crates built with the %s]" % FEAT_NAME[feat] if feat else "")
         if pre:
             leak = [x for x in settings_m if case_parts(x["case"]) in pre]
             ctx += " [after %s had been fed to the same entries in the same process%s; alone in a fresh process the text is parsed alike]" % (
-                ", ".join("%s on %r" % (r, show_hex(h, 60)) for r, h in pre[:3]) + (" .. (%d texts)" % len(pre) if len(pre) > 3 else ""),
+                ", ".join("%s on %r" % (x[0], show_hex(x[1], 60)) for x in pre[:3]) + (" .. (%d texts)" % len(pre) if len(pre) > 3 else ""),
                 "; %s left pest's process-wide settings at `%s` (before: `%s`)" % (leak[0]["case"].split(" entry=")[-1].split()[0], leak[0]["impl"], leak[0]["expected"]) if leak else "")
         if confirmed is False:
             ctx += " [seen in the run; not reproduced in a process of its own, neither alone nor with the history tried]"
-        extra = {"pre": [{"rule": r, "input": h} for r, h in pre], "features": feat}
+        extra = {"pre": [{"rule": x[0], "input": x[1]} for x in pre], "features": feat, "switch": wsw}
         if worst["case"] == "grammar.pest":
             res.violation("%s" % worst["impl"][:400], {"theorem_or_correspondence": "C14: the checked-in parser on its own grammar file", "case": worst["case"], "impl": worst["impl"]})
         elif " entry=" in worst["case"]:
@@ -681,6 +740,15 @@ def run(tier, seed, replay=None):
                                     "stage: the call limit and error-detail flag a new ParserState sees are what they were before the call (default settings; in the large-text "
                                     "stage also with a call limit of 50,000,000 and error detail set by the caller)",
                             "follow_up": leak_search if leak_search else "not run (no entry changed the settings, or a failing text was already found)"},
+        "process_wide_switches": {"cases_with_error_detail": stats_sw.get("detail_cases", 0), "of_them_errors_with_parse_attempts": stats_sw.get("detail_errors_with_attempts", 0),
+                                  "cases_under_call_limits": stats_sw.get("limit_cases", 0), "budgets_found": stats_sw.get("budgets_found", 0),
+                                  "pest_vm_far_from_budget_runs": stats_sw.get("vm_far_from_budget", 0),
+                                  "what": "both builds; checked-in parser (public entry), pest_vm and the compiled fresh parser, each observed by the same code (rust/harness/src/c14_switches.rs). "
+                                          "Error detail on: forest, or error + Error::parse_attempts() (farthest position, expected / unexpected tokens, rule call stacks, as sets) + the "
+                                          "message parse_attempts_error renders; texts: every prefix of a shortest spelling of every rule and of 35 fragments (to every rule), the fragments "
+                                          "in 5 places of a rule definition with every prefix, shipped grammar files whole and cut, random derivations and mutations. Call limits: the "
+                                          "smallest limit a leg does not refuse (doubling + bisection) and its answers at / below it must be EQUAL for the checked-in and the fresh parser "
+                                          "(the same generated code); pest_vm is compared only far from it (1/8: refuses too; 8x + 256: answers as without a limit)"},
         "parse_and_optimize_vs_steps_comparisons": stats.get("parse_and_optimize_vs_steps", 0),
         "entry_vs_generated_parser_comparisons": stats.get("entry_vs_generated", 0),
         "parse_and_optimize_vs_vm_comparisons": stats.get("parse_and_optimize_vs_vm", 0),
